@@ -13,3 +13,5 @@ import PqVerif.Props.C04
 import PqVerif.Props.C16
 import PqVerif.Props.C01
 import PqVerif.Props.C05
+import PqVerif.Props.C02
+import PqVerif.Props.C08
